@@ -131,10 +131,10 @@ RUNNER_ORACLES = [
     (re.compile(r"^context::Context::<'_>::state_mut$"), m_state_mut),
     (re.compile(r"^(state::)?RuntimeState::variable(_mut)?$"), m_variable),
     (re.compile(r"^<std::option::Option<&value::value::Value> as PartialEq>::eq$"), m_option_eq),
-    (re.compile(r"^Runner::<'_, T>::ident$"), m_ident),
 ]
 
 RUNNER_OPAQUE = OPAQUE + [
+    r"^<ast::Ident as Deref>::deref$", r"^<(ast::)?Ident as (std::ops::)?Deref>::deref$",
     r"^<usize as Into<value::value::Value>>::into$",
     r"^<std::string::String as Into<value::value::Value>>::into$",
     r"^<KeyString as Into<value::value::Value>>::into$",
@@ -157,9 +157,18 @@ def run_method(S, name):
     if len(cands) != 1:
         raise Unencodable(f"Runner::{name}: {len(cands)} MIR bodies")
     f = cands[0]
-    ex = S.executor(oracles=RUNNER_ORACLES, opaque=RUNNER_OPAQUE)
-    args = [ex.fresh(t, n) for n, t in METHODS[name]]
-    paths = ex.run(f, args)
+    import veclemmas
+    ex = S.executor(oracles=RUNNER_ORACLES + [(re.compile(r"^core::slice::<impl \[.*\]>::get(_mut)?::<usize>$"), veclemmas.m_slice_get)], opaque=RUNNER_OPAQUE)
+    st = State()
+    cells = []
+    for i in range(N_PARAMS[name]):
+        c = f"variables[{i}]"
+        st.heap[c] = ex.fresh("parser::ast::Ident", f"ident{i}")
+        cells.append(c)
+    st.heap["variables"] = Seq("[Ident]", cells)
+    st.heap["*self"] = Agg("compiler::function::closure::Runner<'_, T>", {0: Ref("&[parser::ast::Ident]", "variables", ()), 1: ex.fresh("T", "runner")})
+    args = [Ref("&Runner<'_, T>", "*self", ())] + [ex.fresh(t, n) for n, t in METHODS[name][1:]]
+    paths = ex.run(f, args, st)
     return ex, paths, f
 
 
@@ -194,12 +203,11 @@ def obligations(S):
             ret_ty = "std::result::Result<T, compiler::expression_error::ExpressionError>"
             # ---- C13: parameters restored on every path.  An ident slot that is None (unnamed `_` parameter) is skipped
             for i in range(N_PARAMS[name]):
-                ident_opt = ex.fresh("std::option::Option<&ast::Ident>", f"ident{i}")
-                named = v.is_variant(ident_opt, "Some", "std::option::Option<T>")
-                key = ex.val_name(p.st, ex.fresh("ast::Ident", f"ident{i}.Some.0*"))
+                # a parameter is bound iff it is named (the empty ident stands for `_`): `is_empty(deref(&identI))`
+                named = z3.Not(z3.Bool(f"is_empty(deref(&ident{i}))"))
+                key = f"ident{i}"
                 final = vars_lookup(ex, p.st, key)
                 init = ex.fresh(OPT_VAL, f"vars0[{key}]")
-                outcome_tag = "success" if None else ""
                 post = z3.Implies(named, v.same(final, init))
                 # split the role by how the body ended so that known findings stay specific
                 for shape, cond in (("body-ok", is_ok(v, r)), ("body-error", err_is(v, r, "Error")), ("body-abort", err_is(v, r, "Abort")),
@@ -279,9 +287,12 @@ def runner_witness(role):
             return None     # after an abort nothing can observe the variables
         variants = []
         b0, b1 = BOUND[method]
-        for o0, o1 in (('"outer0"', '"outer1"'), (b0, b1 or '"outer1"')):
+        param_forms = [params]
+        if params == "|p0, p1|":
+            param_forms += ["|_, p1|", "|p0, _|"]       # an unnamed parameter next to a named one
+        for pf, (o0, o1) in [(pf, oo) for pf in param_forms for oo in (('"outer0"', '"outer1"'), (b0, b1 or '"outer1"'))]:
             src = f"p0 = {o0}\np1 = {o1}\n"
-            src += (f".r, .e = {call} -> {params} {body}\n" if shape == "error" else f".r = {call} -> {params} {body}\n")
+            src += (f".r, .e = {call} -> {pf} {body}\n" if shape == "error" else f".r = {call} -> {pf} {body}\n")
             src += ".p0_after = p0\n.p1_after = p1\n"
             exp = {"outcome": "ok", "event_has": ["ran_body"], "event_eq": {"p0_after": _tag(o0), "p1_after": _tag(o1)}}
             variants.append(({"source": src, "event": {"zero": 0, "yes": True}}, exp))
